@@ -11,7 +11,8 @@ CONSTANTS MAXLEN, TABLE
 Tokens == {S("-a"), S("-b"), S("-f"), S("-fx"), S("-abf"), S("-afb"), S("-z"), S("-az"), S("--foo"), S("--foo=v"), S("--foo="),
            S("--foobar"), S("--foobar=v"), S("--fo"), S("--bar"), S("--b"), S("--b=--"), S("--long-opt=1"), S("--long"), S("-xa"), S("-ax"),
            S("--"), S("-"), <<>>, S("op"), S("--x"), S("--=v"),
-           S("-f=v"), S("-bf="), S("-b=")}       \* (an attached argument may begin with '='; '=' after an option without argument is an unknown option)
+           S("-f=v"), S("-bf="), S("-b="),
+           S("-a-b"), S("-a-"), S("-a--fx")}     \* ('-' inside a pack is an option character like any other: an unknown option)       \* (an attached argument may begin with '='; '=' after an option without argument is an unknown option)
 VARIABLES argv, i, k, calls
 vars == <<argv, i, k, calls>>
 T == Tables[TABLE]
